@@ -1,6 +1,9 @@
 """
 C04  Intermediate states are orthonormal order by order.
 
+s_root kernel: IntermediateStates.s_root is run with overlap_precursor stubbed by free
+symbolic block tensors and compared with the lambda^n coefficient of (1 + sum_k S^(k))^(-1/2)
+as a matrix series over the restricted composite indices (orders <= 6 / 8, all class types).
 The real IntermediateStates.overlap_isr is run for every variant / class pair /
 order of the stated bound; z3 decides, for all ground-state amplitude values and
 all index assignments of the model, that the returned expression equals the
@@ -93,6 +96,101 @@ def run_case(item):
     return res
 
 
+# ----------------------------------------------------------------------------
+# s_root kernel: index chaining and prefactors of the products S*S*... with the
+# precursor overlap blocks replaced by free symbolic tensors (stub)
+# ----------------------------------------------------------------------------
+def _sroot_coeff(m):
+    """coefficient of x^m in (1 + x)^(-1/2) from the binomial recurrence"""
+    c = Fraction(1)
+    for q in range(1, m + 1):
+        c = c * (Fraction(-1, 2) - (q - 1)) / q
+    return c
+
+
+def _compositions(n, parts, lo):
+    if parts == 1:
+        return [(n,)] if n >= lo else []
+    out = []
+    for first in range(lo, n - lo * (parts - 1) + 1):
+        out += [(first,) + rest for rest in _compositions(n - first, parts - 1, lo)]
+    return out
+
+
+class SRootRef:
+    """lambda^n coefficient of (1 + sum_k S^(k))^(-1/2) as a matrix function over the
+    canonical composite indices (i<j.., a<b..) of the class; S^(k) blocks are free tensors"""
+    irs = []
+
+    def __init__(self, order, occ1, virt1, occ2, virt2):
+        self.order, self.I, self.J = order, occ1 + virt1, occ2 + virt2
+        self.no, self.nv = len(occ1), len(virt1)
+
+    def _composites(self, model):
+        from itertools import combinations
+        occ = [o for o in model.orbs if model.is_occ(o)]
+        virt = [o for o in model.orbs if not model.is_occ(o)]
+        return [co + cv for co in combinations(occ, self.no) for cv in combinations(virt, self.nv)]
+
+    def __call__(self, model, val, tau):
+        from vlib.poly import SP
+        I = tuple(tau[k] for k in self.I)
+        J = tuple(tau[k] for k in self.J)
+        comps = self._composites(model)
+
+        def S(k, A, B):
+            return SP.from_ml(val.tensor(f"So{k}", "A", A, B, 0))
+
+        total = SP()
+        for m in range(1, self.order // 2 + 1):
+            cm = _sroot_coeff(m)
+            for comp in _compositions(self.order, m, 2):
+                # matrix product S^(k1) S^(k2) ... over restricted intermediate composites
+                vec = {I: SP.const(1)}
+                for pos, k in enumerate(comp):
+                    last = pos == len(comp) - 1
+                    new = {}
+                    for A, coef in vec.items():
+                        for B in ([J] if last else comps):
+                            x = S(k, A, B)
+                            if x.is_zero():
+                                continue
+                            new[B] = new.get(B, SP()) + coef * x
+                    vec = new
+                total = total + vec.get(J, SP()) * cm
+        return total.to_ml()
+
+
+def run_sroot(item):
+    variant, space, order, mtag = item
+    from adcgen import GroundState, Operators, IntermediateStates
+    from adcgen.indices import get_symbols
+    from adcgen.sympy_objects import AntiSymmetricTensor
+    isr = IntermediateStates(GroundState(Operators("mp")), variant)
+
+    def stub(order, block, indices):
+        a, b = (get_symbols(x) for x in indices)
+        return AntiSymmetricTensor(f"So{order}", tuple(a), tuple(b), 0)
+    isr.overlap_precursor = stub          # environment stub: precursor overlap blocks are free tensors
+    i1, i2 = idx_for(space), idx_for(space, space.count("h"), space.count("p"))
+    res = {"item": item, "api": f"IntermediateStates(.., '{variant}').s_root({order}, '{space},{space}', "
+                               f"'{i1},{i2}') with overlap_precursor stubbed by free tensors"}
+    out = isr.s_root(order, f"{space},{space}", f"{i1},{i2}")
+    res["out"] = str(out)[:300]
+    s1, s2 = get_symbols(i1), get_symbols(i2)
+    o1 = tuple(IR.idx_ir(s) for s in s1 if s.space == "occ")
+    v1 = tuple(IR.idx_ir(s) for s in s1 if s.space == "virt")
+    o2 = tuple(IR.idx_ir(s) for s in s2 if s.space == "occ")
+    v2 = tuple(IR.idx_ir(s) for s in s2 if s.space == "virt")
+    ref = SRootRef(order, o1, v1, o2, v2)
+    model = Model(*mtag)
+    spec = {(f"So{k}", len(s1), len(s2)): ("A", 0) for k in range(0, order + 1)}
+    oc = compare(ref, out, list(s1) + list(s2), model, timeout_ms=TIMEOUT, seed=seed(), spec_extra=spec)
+    res.update(oc.as_dict())
+    res["witness"], res["model"] = oc.witness, model.tag
+    return res
+
+
 def main():
     global TIMEOUT
     ap = argparse.ArgumentParser()
@@ -138,6 +236,12 @@ def main():
                                 items.append(("pre", variant, part, singles, n, sp1, sp2, mt))
                             if sp1 == sp2 and n == 2 and len(sp1) <= 2:
                                 items.append(("pre", variant, part, singles, n, sp1, sp2, mt))
+    if not quick:
+        # fourth order: first order with products S*S inside S^(-1/2) (multi-index classes)
+        items += [("isr", "dip", "mp", False, 4, "hh", "hh", (3, 2)),
+                  ("isr", "dea", "mp", False, 4, "pp", "pp", (2, 3)),
+                  ("isr", "ip", "mp", False, 4, "h", "h", (2, 2)),
+                  ("isr", "ea", "mp", False, 4, "p", "p", (2, 2))]
     results = pmap(run_case, items, limit=1200 if quick else 7200, workers=14)
     # order expansion of S^(-1/2) = (1 + sum_k S^(k))^(-1/2) for all overlap values
     from vlib import series
@@ -154,6 +258,23 @@ def main():
                           {"api": api, "output": r["out"], "witness": r.get("witness")})
         elif r["status"] == "harness":
             run.harness_error(f"series: solver model does not reproduce for {api}")
+    sitems = []
+    for variant, space, mt in (("pp", "ph", (2, 2)), ("ip", "h", (2, 2)), ("dip", "hh", (3, 2)),
+                               ("dea", "pp", (2, 3)), ("ip", "phh", (3, 2)), ("ea", "pph", (2, 3)),
+                               ("pp", "pphh", (2, 2))) + (() if quick else (("pp", "pphh", (3, 3)),)):
+        for n in range(2, 7 if quick else 9):
+            sitems.append((variant, space, n, mt))
+    for r in pmap(run_sroot, sitems, limit=600, workers=14):
+        st = r.get("status")
+        run.add_outcome("s_root_kernel", r, sample={"api": r.get("api"), "expr": (r.get("out") or "")[:160],
+                                                    "model": r.get("model"), "verdict": st}
+                        if st == "equal" and r.get("item", (0, 0, 0))[2] >= 4 else None,
+                        distinct_key=r.get("api"), nontrivial=True)
+        if st == "differ":
+            run.violation(f"{r['api']}", f"{r['api']} is not the lambda^n coefficient of S^(-1/2) over the restricted composite indices ({r['model']})",
+                          {"part": "s_root", "item": list(r["item"]), "api": r["api"], "output": r.get("out"), "witness": r.get("witness")})
+        if st == "error" and "HarnessError" in r.get("error", ""):
+            run.harness_error(r["error"])
     nz = 0
     for r in results:
         st = r.get("status")
